@@ -72,6 +72,12 @@ type Case struct {
 	ActPolicy string `json:"act_policy,omitempty"`
 	// VouchRole: the role in which the storage's verifier vouches for third-party tokens: "" both | subject-only | actor-only
 	VouchRole string `json:"vouch_role,omitempty"`
+	// StoreVeto: the storage refuses the exchange at one of its calls (the two hooks of the exchange, the token creation, the
+	// claims hooks, the refresh-token lookup, the third-party verifier) with an error value of a generated style
+	StoreVeto *VetoSpec `json:"store_veto,omitempty"`
+	// ErrStyle: how the storage words its own refusals (unknown client / wrong secret / unknown refresh token / unknown
+	// third-party token): "" plain Go error | oidc | wrapped | server (vkit.StorePolicy.ErrStyle)
+	ErrStyle string `json:"err_style,omitempty"`
 	// Shape (label only): single | hosts | seq | hosts-seq
 	Shape string `json:"shape,omitempty"`
 	// Hosts: the provider derives its issuer from the request's Host (op.IssuerFromHost): two issuers, one storage, one key set
@@ -296,6 +302,10 @@ func genCase(t *rapid.T) Case {
 		c.More = append(c.More, st)
 		prev = st.Host
 	}
+	if c.StoreVeto != nil && rapid.Bool().Draw(t, "veto.once") {
+		// the storage refuses one of the exchanges only
+		c.StoreVeto.Only = rapid.IntRange(1, n+1).Draw(t, "veto.only")
+	}
 	return c
 }
 
@@ -324,6 +334,7 @@ func genOne(t *rapid.T) Case {
 	c.Policy.NoLivenessCheck = rapid.IntRange(0, 9).Draw(t, "nolive") >= 8
 	c.Extras = rapid.Bool().Draw(t, "extras")
 	c.ActPolicy = rapid.SampledFrom(append([]string{"", ""}, actPolicies...)).Draw(t, "actpolicy")
+	c.ErrStyle = rapid.SampledFrom(append([]string{"", "", ""}, vkit.ErrStyles...)).Draw(t, "errstyle")
 	thirdOK := c.Policy.VerifyThird && c.Extras
 	withActor := rapid.IntRange(0, 9).Draw(t, "actor") < 4
 	// sameActor: the actor token is the very string presented as subject token. how: "good" = declared as what the token is,
@@ -367,6 +378,9 @@ func genOne(t *rapid.T) Case {
 		}
 		c.Requested = rapid.SampledFrom(append(append([]string{}, okRequested...), badRequest...)).Draw(t, "requested")
 		c.Policy.Veto = rapid.IntRange(0, 9).Draw(t, "veto") == 9
+		if rapid.IntRange(0, 9).Draw(t, "storeveto") >= 8 {
+			c.StoreVeto = genVeto(t)
+		}
 		return c
 	}
 	// eligible by construction
@@ -384,7 +398,7 @@ func genOne(t *rapid.T) Case {
 		return c
 	}
 	// break exactly one premise
-	breaks := []string{"subject-dead", "subject-decl", "subject-garbage", "cred", "cred", "veto", "requested", "subject-dead", "subject-decl"}
+	breaks := []string{"subject-dead", "subject-decl", "subject-garbage", "cred", "cred", "veto", "requested", "subject-dead", "subject-decl", "store-veto", "store-veto", "store-veto"}
 	if c.Actor != nil {
 		breaks = append(breaks, "actor-dead", "actor-decl", "actor-garbage", "actor-dead", "actor-decl", "actor-same-decl")
 	}
@@ -431,6 +445,8 @@ func genOne(t *rapid.T) Case {
 		c.Cred = rapid.SampledFrom(badCreds).Draw(t, "cred")
 	case "veto":
 		c.Policy.Veto = true
+	case "store-veto":
+		c.StoreVeto = genVeto(t)
 	case "requested":
 		c.Requested = rapid.SampledFrom(badRequest).Draw(t, "badrequested")
 	case "third-unvouched":
@@ -473,11 +489,13 @@ type world struct {
 	// expAct: the `act` claim the storage policy decided for the exchange under way (nil = none)
 	expAct  map[string]any
 	fClient *vkit.ClientSpec
+	// veto: the refusal of the storage planned for this case (nil = none); armed during the exchange requests only
+	veto *vetoPlan
 }
 
 // plus: the parts of the storage's token-exchange policy that live in this package (see helpers_test.go).
 func (w *world) plus() tePlus {
-	tp := tePlus{Act: w.c.ActPolicy, VouchRole: w.c.VouchRole}
+	tp := tePlus{Act: w.c.ActPolicy, VouchRole: w.c.VouchRole, Veto: w.veto}
 	if !contains(actPolicies, tp.Act) {
 		tp.Act = ""
 	}
@@ -985,7 +1003,14 @@ func run(c Case) (res *vkit.Result) {
 	}
 	w.clB = webClient("client-b", "secret-b")
 	clI := webClient("client-i", "secret-i")
-	w.st = vkit.NewStore([]*vkit.ClientSpec{w.clA, w.clB, clI}, w.sk, vkit.StorePolicy{TE: c.Policy})
+	pol := vkit.StorePolicy{TE: c.Policy}
+	if contains(vkit.ErrStyles, c.ErrStyle) {
+		pol.ErrStyle = c.ErrStyle
+	}
+	w.st = vkit.NewStore([]*vkit.ClientSpec{w.clA, w.clB, clI}, w.sk, pol)
+	if validVeto(c.StoreVeto) {
+		w.veto = &vetoPlan{spec: *c.StoreVeto}
+	}
 	sut := buildSUT(c.Router, issuer, 0, w.st, c.Extras, c.Hosts, w.plus())
 	w.ags[0], w.ags[1] = vkit.NewAgent(sut), vkit.NewAgent(sut)
 	if c.Hosts {
@@ -1160,7 +1185,23 @@ func (w *world) exchange(res *vkit.Result, idx int, st Step, subj, act tokenTrut
 	multi(form, "audience", c.Audience)
 	multi(form, "resource", c.Resource)
 	before := tokenIDs(w.st)
+	w.veto.arm(idx)
 	resp := w.ag.Token(form, cred)
+	// the storage's refusal is a fact of this request (it needs no model): the calls at which the storage returned an error
+	vetoedAt := w.veto.disarm()
+	decisive := len(vetoedAt) > 0
+	if decisive && w.veto.spec.At == "lookup" {
+		// the refresh-token lookup is the one call whose refusal does not end the exchange by itself: it says "not a refresh
+		// token of mine", and the storage's third-party verifier may still vouch for the string. The refusal settles the
+		// matter when a slot declared as refresh token holds anything but a third-party token (those stay with the model).
+		decisive = c.Subject.Declared == "refresh" && c.Subject.Kind != "third" || c.Actor != nil && c.Actor.Declared == "refresh" && c.Actor.Kind != "third"
+	}
+	if decisive {
+		v := w.veto.spec
+		rejectFP = "C15:success-despite-storage-veto:" + v.At + "/" + styleClass(v.Style)
+		rejectWhy = fmt.Sprintf("the storage refused the exchange: %s returned an error (%s, error style %q)", strings.Join(vetoedAt, ", "), map[bool]string{true: "after doing its work", false: "right away"}[v.After], v.Style)
+		mustReject, eligible = true, false
+	}
 
 	outcome := "refused"
 	switch {
@@ -1233,6 +1274,18 @@ func (w *world) exchange(res *vkit.Result, idx int, st Step, subj, act tokenTrut
 		}
 		res.Label("actor:same-string-as-subject", "same-string:"+rel+"/"+map[bool]string{true: "must-reject", false: "may-succeed"}[mustReject]+"/"+strings.SplitN(outcome, ":", 2)[0])
 	}
+	if w.veto != nil && (w.veto.spec.Only == 0 || w.veto.spec.Only == idx+1) {
+		// where and how the storage refuses, and whether the exchange got that far
+		v := w.veto.spec
+		reached := map[bool]string{true: "refused-there", false: "call-not-reached"}[len(vetoedAt) > 0]
+		if len(vetoedAt) > 0 && !decisive {
+			reached = "refused-there-left-to-the-verifier"
+		}
+		res.Label("storage-veto:"+v.At+"/"+reached, "storage-veto-style:"+styleClass(v.Style)+"/"+reached, "storage-veto:"+map[bool]string{true: "after-the-call's-work", false: "right-away"}[v.After])
+		for _, m := range vetoedAt {
+			res.Label("storage-veto@" + m + ":" + strings.SplitN(outcome, ":", 2)[0])
+		}
+	}
 	switch {
 	case mustReject:
 		res.Label("must-reject", "must-reject:"+strings.SplitN(strings.TrimPrefix(rejectFP, "C15:success-"), ":", 2)[0])
@@ -1281,10 +1334,19 @@ func (w *world) exchange(res *vkit.Result, idx int, st Step, subj, act tokenTrut
 	if tp := w.plus(); tp != (tePlus{}) {
 		out.Key += "|act=" + tp.Act + "|vouch=" + tp.VouchRole
 	}
+	if w.veto != nil {
+		out.Key += fmt.Sprintf("|storeveto=%s/%s/%v/%v", w.veto.spec.At, w.veto.spec.Style, w.veto.spec.After, len(vetoedAt) > 0)
+	}
+	if c.ErrStyle != "" {
+		out.Key += "|errstyle=" + c.ErrStyle
+	}
 	if idx > 0 || c.Hosts {
 		out.Key += fmt.Sprintf("|host=%d|keyop=%s|s=%s%s|a=%s%s", w.hostIdx(st.Host), st.KeyOp, subj.Unverifiable, map[bool]string{true: "/replay"}[st.Subject.Replay > 0], act.Unverifiable, map[bool]string{true: "/replay"}[st.Actor != nil && st.Actor.Replay > 0])
 	}
 	out.Info = map[string]any{"outcome": outcome, "status": resp.Status, "subject_validity": sWhy, "actor_validity": aWhy, "auth": authWhy, "effective_type": effective, "must_reject": mustReject, "eligible": eligible}
+	if len(vetoedAt) > 0 {
+		out.Info["storage_refused_at"] = vetoedAt
+	}
 	return out
 }
 
@@ -1313,6 +1375,9 @@ func (w *world) evidence(res *vkit.Result, steps []Step, outs []stepOut) {
 	}
 	if c.Policy.NoLivenessCheck {
 		res.Label("policy:no-liveness-check")
+	}
+	if c.ErrStyle != "" {
+		res.Label("storage-words-its-refusals-as:" + c.ErrStyle)
 	}
 	res.Label("policy:act=" + map[bool]string{true: "actor-token-subject", false: w.plus().Act}[w.plus().Act == ""])
 	if w.plus().VouchRole != "" {
@@ -1631,7 +1696,7 @@ func (w *world) judgeSuccess(res *vkit.Result, resp *vkit.Resp, effective, expSu
 var prop = vkit.Prop[Case]{
 	ID: "C15",
 	Rule: "cases = subject token and optional actor token, each minted through the real code flow (opaque / JWT access token, refresh token, ID token; own or other client; user u1-u3) and then left live or expired / revoked / rotated / issued by a foreign provider / re-signed / wrong issuer / alg none / tampered, or a storage-vouched third-party token, or garbage " +
-		"x declared type (matching, other supported, unsupported, absent) x requested type (absent, access, refresh, id, jwt, unsupported) x scope / audience / resource lists x storage policy (default type when requested_token_type is absent: access / refresh / id / none = left unset, impersonation, dropped scopes, veto, third-party verifier vouching in both roles / as subject only / as actor only, access-token liveness check on / off, the act claim the storage publishes: {sub: actor token subject} / pseudonymous actor id / nested chain through a gateway / further members / never any / also without an actor token - every JWT handed out (JWT access token, ID token, companion of a refresh token) must carry exactly the act the storage supplied, absent when it supplied none) x the actor token being the very string presented as subject token (declared as what it is / as the subject declares it / as another supported type / unsupported / absent; a third-party token vouched in one role only) x the exchanging client's registration (application type web / native / user_agent drawn independently of the auth method client_secret_basic / client_secret_post / none / private_key_jwt, registered for the grant or not) x credential presentation (right, its secret by Basic / by the form whatever the registered channel, wrong secret by the registered / the other channel, client_id only, Basic with an empty password, client_id with an empty client_secret, nothing at all, a valid assertion of a key registered for the client whatever its method, unknown client, forged assertion, malformed Basic header; model of authenticated from the registration alone: a secret-based or key-based registration that presents no valid credential is unauthenticated whatever its application type = must-reject, public clients and valid credentials of another kind than the registered one are grey) x client grants x issued access token format x signing key x router, drawn in three modes (every premise true / exactly one broken / free); " +
+		"x declared type (matching, other supported, unsupported, absent) x requested type (absent, access, refresh, id, jwt, unsupported) x scope / audience / resource lists x storage policy (default type when requested_token_type is absent: access / refresh / id / none = left unset, impersonation, dropped scopes, veto, third-party verifier vouching in both roles / as subject only / as actor only, access-token liveness check on / off, the act claim the storage publishes: {sub: actor token subject} / pseudonymous actor id / nested chain through a gateway / further members / never any / also without an actor token - every JWT handed out (JWT access token, ID token, companion of a refresh token) must carry exactly the act the storage supplied, absent when it supplied none) x the actor token being the very string presented as subject token (declared as what it is / as the subject declares it / as another supported type / unsupported / absent; a third-party token vouched in one role only) x the exchanging client's registration (application type web / native / user_agent drawn independently of the auth method client_secret_basic / client_secret_post / none / private_key_jwt, registered for the grant or not) x storage refusal (a storage that refuses the exchange at ONE of its calls - ValidateTokenExchangeRequest / CreateTokenExchangeRequest / the token creation (CreateAccessToken, CreateAccessAndRefreshTokens) / the claims hooks of the exchange / the refresh-token lookup / the third-party verifier - right away or after doing the call's work (results handed back with the error), with an error value of every style: plain errors.New / fmt.Errorf / errors.Join / an error type of its own, a *oidc.Error of each of the 15 error types of pkg/oidc bare / with description / with a parent / wrapped with %w / joined / as the cause of its own error type, the library and context sentinels (op.ErrInvalidRefreshToken, op.ErrDuplicateUserCode, oidc.ErrKeyNone, oidc.ErrKeyMultiple, oidc.ErrExpired, context.Canceled, context.DeadlineExceeded) as they are / wrapped / as a cause; the refusal is a fact of the request (recorded by the storage wrapper, armed for the exchange request only): once the storage returned an error from such a call a 2xx is a violation (only the refresh-token lookup leaves a third-party token to the verifier), in a sequence at every exchange or at one only; the style in which the storage words its own refusals (plain / *oidc.Error / wrapped / server_error)) x credential presentation (right, its secret by Basic / by the form whatever the registered channel, wrong secret by the registered / the other channel, client_id only, Basic with an empty password, client_id with an empty client_secret, nothing at all, a valid assertion of a key registered for the client whatever its method, unknown client, forged assertion, malformed Basic header; model of authenticated from the registration alone: a secret-based or key-based registration that presents no valid credential is unauthenticated whatever its application type = must-reject, public clients and valid credentials of another kind than the registered one are grey) x client grants x issued access token format x signing key x router, drawn in three modes (every premise true / exactly one broken / free); " +
 		"half of the cases add the provider's life around the exchange: a provider whose issuer is derived from the Host header serving two hosts (tokens obtained on one host presented on the other: a JWT / ID token of the other host's issuer is a foreign token = must-reject, issuer-less opaque / refresh tokens of the other host are grey) and / or 1-3 further exchanges on the SAME provider, each on a generated host, each preceded by a generated key change of the storage (rotation with the old public keys kept / all withdrawn under a new or the same kid, withdrawal of the older keys), presenting tokens minted before any of the earlier exchanges or the very subject token of an earlier exchange again; every exchange is judged by the same model against the keys the storage serves and the store's records AT THAT TIME: a JWT signed by a key the storage has withdrawn is not a live, verifiable token of the provider = invalid subject / actor token = must-reject, one signed by an older key that is still published stays valid; " +
 		"non-trivial = the request passes client authentication so the exchange logic decides; distinct = (router, auth method, credential, subject kind/state/declared, actor kind/state/declared, requested, default, format, impersonation, veto, verifier, outcome)",
 	Gen: genCase,
